@@ -38,7 +38,7 @@ def run_spec(args: dict, sandbox: str) -> dict:
             seen.add(k)
             violations.append({"kind": v["kind"], "locus": v["locus"], "detail": v["detail"]})
     prefix = "req|" if PROP == "C03" else "resp|"
-    states = [s for s in w["states"] if s.startswith(prefix) or s.startswith("sched|")]
+    states = [s for s in w["states"] if s.startswith(prefix) or s.startswith(("sched|", "tsched|"))]
     return {
         "violations": violations[:6],
         "spec": spec,
@@ -64,7 +64,7 @@ RULE = (
     "settings of raise_on_unexpected_status, detailed and plain variants, sync and asyncio flavours, latency and transport faults. "
     "Non-trivial/distinct = distinct (documented?, source, schema kind, status in HTTPStatus?, raise flag, variant, flavour) tuples executed."
 )
-STATE_MEASURE = "sched|: distinct interleavings (completion-order permutations of asyncio groups); resp|: distinct (response shape = documented/undocumented, source, schema kind) x in/outside HTTPStatus x raise flag x variant x sync/async"
+STATE_MEASURE = "sched|: distinct interleavings (completion-order permutations of asyncio groups); resp|: distinct (response shape = documented/undocumented, source, schema kind) x in/outside HTTPStatus x raise flag x variant x sync/async/threads x status x media type x slow/fast; tsched|: distinct caller-thread interleavings (group size, finish order, number of switches capped at 6)"
 ASSUMPTIONS = [
     "only schema-valid bodies and the media types the property lists are sent; union members are chosen so that no earlier member would (mis)take the value",
     "decoded values are compared in the normal forms of DESIGN A.3 (a model by its re-encoded dict and its class living in <pkg>.models)",
